@@ -33,6 +33,7 @@ ASSUMPTIONS = [
 ]
 CHECK = "evidence"
 A_COEF = 1.5
+A_CAP = 0.4  # the Jensen allowance may not exceed 0.4 nats, whatever the spread
 CHUNK = 4
 FAMS = ["gauss", "wall", "bimodal", "periodic", "exp-prior", "zero-region", "narrow"]
 
@@ -90,7 +91,7 @@ class Runs:
             for r in ex.map(_chunk_star, [(cell, 0, case["seed"], 2, k * CHUNK, CHUNK, case["N"]) for k in range(case["R"] // CHUNK)]):
                 reps.extend(r)
         vals = [r["logz"] - tr["logz"] for r in reps if "logz" in r]
-        m, s, allowed, fl = ens.bias_test(vals, case["alpha"], A_COEF)
+        m, s, allowed, fl = ens.bias_test(vals, case["alpha"], A_COEF, A_CAP)
         if fl:
             raise Violation(describe(cell, case["N"], m, s, allowed, len(vals), reps), sig=signature(cell, m, reps))
         return {}
@@ -100,7 +101,8 @@ def signature(cell, m, reps):
     cross = float(np.mean([r["crossing"] for r in reps if "logz" in r] or [0.0]))
     return {"kind": "evidence-biased", "kernel": cell["kernel"], "clustering": cell["clustering"], "family": cell["family"],
             "sign": "+" if m > 0 else "-", "folded": cell["family"] in ("periodic", "reflective"),
-            "labels": "position" if cell["clustering"] else "none", "crossing": ">1e-3" if cross > 1e-3 else "<=1e-3"}
+            "labels": "position" if cell["clustering"] else "none", "crossing": ">1e-3" if cross > 1e-3 else "<=1e-3",
+            "magnitude": "moderate" if abs(m) <= 0.5 else "gross"}
 
 
 def describe(cell, N, m, s, allowed, R, reps):
@@ -134,7 +136,7 @@ def finish(rec, tier, seed, jobs):
                                sample={"cell": cell, "N": N, "seed": r["seed"], "logz_error": round(r["logz"] - tr["logz"], 4)})
             if len(ok) < 8:
                 continue
-            m, s, allowed, fl = ens.bias_test([r["logz"] - tr["logz"] for r in ok], 1e-6, A_COEF)
+            m, s, allowed, fl = ens.bias_test([r["logz"] - tr["logz"] for r in ok], 1e-6, A_COEF, A_CAP)
             sds[N] = s
             table.append({"cell": ci, "family": cell["family"], "kernel": cell["kernel"], "clustering": cell["clustering"], "N": N,
                           "mean_err": round(m, 5), "sd": round(s, 5), "allowed": round(allowed, 5), "R": len(ok)})
@@ -146,7 +148,7 @@ def finish(rec, tier, seed, jobs):
                     reps2.extend(r)
             rec.evaluations += len(reps2)
             ok2 = [r for r in reps2 if "logz" in r]
-            m2, s2, allowed2, fl2 = ens.bias_test([r["logz"] - tr["logz"] for r in ok2], 1e-4, A_COEF)
+            m2, s2, allowed2, fl2 = ens.bias_test([r["logz"] - tr["logz"] for r in ok2], 1e-4, A_COEF, A_CAP)
             if not fl2 or (m2 > 0) != (m > 0):
                 rec.classes[f"{CHECK}:stage1-flag-not-confirmed"] += 1
                 continue
